@@ -318,8 +318,13 @@ def one_dataset(obs, rng, conv, spec):
         'Transect': Transect,
     }
     lines = polylines(model, rng, int(rng.integers(3, 6))) + extra_polylines(model, rng, polys, int(rng.integers(5, 8)))
+    from ..geomgen import robustly_simple
     for idx, (line, cls) in enumerate(lines):
         if not line.is_simple or line.is_closed:
+            continue
+        if not robustly_simple([tuple(c[:2]) for c in line.coords], 1e-7):
+            # a vertex within an ulp of another leg: GEOS calls the path simple, but positions along it are ambiguous
+            obs.cls('path:nearly-self-touching-not-asserted')
             continue
         if model.derived_geometry and cls == 'along_edge':
             obs.cls('derived-geometry:along-edge-path-not-asserted')
